@@ -253,6 +253,8 @@ def git_crosscheck(ctx, G, gitfiles, treefiles, label, stride):
     rows.sort(key=lambda r: (r[0], r[1]))
     pairs = [(r[0], r[1]) for r in rows]
     ncmp = 0
+    per = ctx.cov.setdefault("git_agreements", {"mktree": 0, "diff": 0, "paths": 0, "renames": 0})
+    per["mktree"] += ntrees
 
     def compare(what, got, exp_of, rows_):
         nonlocal ncmp
@@ -261,6 +263,7 @@ def git_crosscheck(ctx, G, gitfiles, treefiles, label, stride):
             if e is None:
                 continue
             ncmp += 1
+            per[what.split(" ")[0]] += 1
             if what != "renames":
                 g = {p: v[:5] + (None,) for p, v in g.items()}
             if g != e:
@@ -277,9 +280,8 @@ def git_crosscheck(ctx, G, gitfiles, treefiles, label, stride):
                 lambda r, i=i: git_expect(r[6][i]), sub)
     compare("renames", G.difftree(spairs, ["-C100%"]),
             lambda r: git_expect(r[8], True) if r[7] and git_comparable_renames(r[4]) else None, sub)
-    ctx.log(f"git {label}: {ntrees} trees created by git mktree with the ids derived from the spec, "
-            f"{ncmp} spec-vs-git diff comparisons agree")
-    ctx.cov["git_crosscheck"] = ctx.cov.get("git_crosscheck", 0) + ncmp + ntrees
+    ctx.log(f"git {label}: {ntrees} new trees created by git mktree under the ids derived from the spec, "
+            f"{ncmp} diffs (raw, pathspec, -C100%) agree between spec and git")
 
 
 # --------------------------------------------------------------------------- random cases for trace validation
@@ -601,12 +603,17 @@ def run(ctx):
     else:
         plan = [("build 8 paths x 8 cells <=4", "TreeDiffGen_build_t.cfg"),
                 ("diff 8 paths x 4 cells <=2", "TreeDiffGen_diff_t1.cfg"),
-                ("diff 6 paths x 5 cells <=2", "TreeDiffGen_diff_t2.cfg"),
                 ("diff 6 paths x 3 cells <=3", "TreeDiffGen_diff_t3.cfg"),
                 ("diff 3 paths x 8 cells <=2", "TreeDiffGen_diff_t4.cfg")]
     total_cases = 0
-    for label, cfg in plan:
-        cases, n = gen_cases(ctx, label, cfg)
+    # TLC enumerates the next configuration while the current one is replayed
+    from concurrent.futures import ThreadPoolExecutor
+    pool = ThreadPoolExecutor(1)
+    futs = [pool.submit(gen_cases, ctx, plan[0][0], plan[0][1])]
+    for k, (label, cfg) in enumerate(plan):
+        cases, n = futs[k].result()
+        if k + 1 < len(plan):
+            futs.append(pool.submit(gen_cases, ctx, plan[k + 1][0], plan[k + 1][1]))
         total_cases += n
         with open(cases) as f:
             first = f.readline()
